@@ -384,11 +384,47 @@ def r_comment_rule_preconditions(r, prog):
                     only=lambda p: p.startswith('slicec::validators::comments::') or p.startswith('slicec::validators::operations::'))
 
 
+def r_comment_text_by_byte_positions(r, prog):
+    """The comment lexer cuts identifiers and message text out of the current line with byte offsets: a position that starts at 0 on every line
+    and grows by the UTF-8 length of each character consumed. Columns count characters; a slice taken with a column difference is shifted (or
+    lands inside a character and panics) as soon as the line holds a non-ASCII character."""
+    CLX = "slicec::parsers::comments::lexer::Lexer::<'input>::"
+    n = 0
+    for k, f in sorted(prog.fns.items()):
+        if not k.startswith(CLX) or '{closure' in k and False:
+            continue
+        for c in f.calls():
+            if c.name() == 'index' and not f.blocks[c.bb].get('cleanup') and vexpr(f, c.args[0]) == 'arg1.current_line':
+                n += 1
+                rng = vexpr(f, c.args[1])
+                if re.match(r'^(Range::Range\{start:arg1\.position,end:arg1\.position\}|RangeFrom::RangeFrom\{start:arg1\.position\}|RangeTo::RangeTo\{end:arg1\.position\})$', rng):
+                    r.ok('%s slices the current line between byte positions' % f.name)
+                else:
+                    r.finding('comment-text-slice:%s' % f.name, c.span, '%s slices the current line with %s: the bounds must be the byte position kept by the lexer' % (f.name, rng[:120]))
+    writes = []
+    for k, f in sorted(prog.fns.items()):
+        if not k.startswith(CLX):
+            continue
+        for bb, j, lhs, rv, st in f.assigns():
+            names = [x.get('n') for x in lhs.get('p', []) if isinstance(x, dict) and 'f' in x]
+            if names == ['position'] and lhs['l'] == 1 and not f.blocks[bb].get('cleanup') and f.name != 'new':
+                writes.append((f, vexpr(f, rv['a']) if rv['k'] == 'use' else rv['k']))
+    good = [w for w in writes if w[1] == '0' or re.match(r'^Add\(arg1\.position,len_utf8\(next\(arg1\.buffer\) as Some\.0\)\)$', w[1])]
+    if writes and len(good) == len(writes) and any(w[1] != '0' for w in writes):
+        r.ok('the byte position is reset to 0 per line and advanced by len_utf8() of each consumed character (%d writes)' % len(writes))
+    else:
+        r.finding('comment-byte-position', writes[0][0].span if writes else '-', 'the comment lexer\'s byte position is written as %s' % [w[1][:60] for w in writes])
+    if n < 2:
+        raise AnchorMissing('slices of the current line in the comment lexer (found %d)' % n)
+    r.floor(3)
+
+
 def run(ctx):
     prog = ctx.prog
     ctx.run_rule('C16.1a', 'T6', 'link patcher: compute and apply loops cover the same node kinds = impls of Commentable', r_node_variants_agree, prog)
     ctx.run_rule('C16.1b', 'T6', 'compute and apply visit overview, params, returns, see in the same order', r_traversal_order_agrees, prog)
     ctx.run_rule('C16.1c', 'T3', 'one queue entry pushed per computed link, one popped per applied link', r_one_entry_per_link, prog)
+    ctx.run_rule('C16.5d', 'T10', 'comment text is cut out of a line by byte positions (reset per line, advanced by len_utf8)', r_comment_text_by_byte_positions, prog)
     ctx.run_rule('C16.12', 'T13', 'conditions under which a doc-comment tag that does not fit its element is reported (share of the validators\' precondition ledger)', r_comment_rule_preconditions, prog)
     ctx.run_rule('C16.2', 'T10', 'links resolve from the documented element outwards', r_link_scope, prog)
     ctx.run_rule('C16.3', 'T1', 'comment defects are lints: no Error is built in the comment pipeline', r_warnings_never_errors, prog)
